@@ -15,7 +15,13 @@ def _temptable():
     return temptable.generate(os.path.join(REPO, 'src/quantity/predefined.py'))
 
 
+def _isotable():
+    from . import isotable
+    return isotable.generate()
+
+
 GENERATORS = [
     ('RoundingImpl', _rounding),
     ('TempTable', _temptable),
+    ('IsoTable', _isotable),
 ]
